@@ -10,6 +10,7 @@ import (
 	"strconv"
 	"strings"
 	"sync"
+	"time"
 )
 
 // Process sharding: a sub whose cases must not share process state (package
@@ -128,7 +129,15 @@ func (s *Sub[C]) RunSharded(ctx *Ctx, n int, gen func(i int) C) {
 		go func(i int) {
 			defer wg.Done()
 			out := filepath.Join(dir, fmt.Sprintf("shard%d.json", i))
-			cmd := exec.Command(exe, "-prop", ctx.Prop, "-tier", ctx.Tier)
+			args := []string{"-prop", ctx.Prop, "-tier", ctx.Tier}
+			if !ctx.Deadline.IsZero() {
+				rem := time.Until(ctx.Deadline)
+				if rem < time.Second {
+					rem = time.Second
+				}
+				args = append(args, "-deadline", rem.String())
+			}
+			cmd := exec.Command(exe, args...)
 			cmd.Env = append(os.Environ(), fmt.Sprintf("VERIF_SHARD=%s|%d|%d|%s|%d", s.Name, i, k, out, ordinal), "GOMAXPROCS=2")
 			cmd.Stderr = os.Stderr
 			if err := cmd.Run(); err != nil {
